@@ -92,6 +92,83 @@ pub struct ColSpec {
     pub auto_inc: bool,
     /// selector into the pool of the column's type
     pub default: Option<u8>,
+    /// column-level CHECK (numeric columns)
+    #[serde(default)]
+    pub check: Option<CheckSpec>,
+    /// REFERENCES <first table>(id) with the given ON DELETE action
+    #[serde(default)]
+    pub fk: Option<FkAction>,
+}
+
+#[derive(Debug, Clone, Copy, PartialEq, Eq, Serialize, Deserialize)]
+pub enum FkAction {
+    NoAction,
+    Restrict,
+    Cascade,
+}
+
+/// CHECK grammar: comparisons of the column with pool literals joined by AND / OR
+#[derive(Debug, Clone, PartialEq, Serialize, Deserialize)]
+pub enum CheckSpec {
+    Cmp(CmpOp, u8),
+    And(Box<CheckSpec>, Box<CheckSpec>),
+    Or(Box<CheckSpec>, Box<CheckSpec>),
+}
+
+impl CheckSpec {
+    pub fn sql(&self, col: &str, ty: Ty) -> String {
+        match self {
+            CheckSpec::Cmp(op, v) => format!("{} {} {}", col, op.sql(), pool(ty, *v % 12, false).sql()),
+            CheckSpec::And(a, b) => format!("{} AND {}", a.sql(col, ty), b.sql(col, ty)),
+            CheckSpec::Or(a, b) => format!("({} OR {})", a.sql(col, ty), b.sql(col, ty)),
+        }
+    }
+    /// three-valued: None = UNKNOWN (passes)
+    pub fn eval(&self, ty: Ty, v: &Val) -> Option<bool> {
+        match self {
+            CheckSpec::Cmp(op, l) => {
+                let lit = pool(ty, *l % 12, false);
+                let o = match (v, &lit) {
+                    (Val::Null, _) => return None,
+                    (Val::Int(a), Val::Int(b)) => a.cmp(b),
+                    (Val::Float(a), Val::Float(b)) => a.partial_cmp(b)?,
+                    (Val::Text(a), Val::Text(b)) => a.as_bytes().cmp(b.as_bytes()),
+                    _ => return None,
+                };
+                Some(match op {
+                    CmpOp::Eq => o.is_eq(),
+                    CmpOp::Ne => o.is_ne(),
+                    CmpOp::Lt => o.is_lt(),
+                    CmpOp::Le => o.is_le(),
+                    CmpOp::Gt => o.is_gt(),
+                    CmpOp::Ge => o.is_ge(),
+                })
+            }
+            CheckSpec::And(a, b) => match (a.eval(ty, v), b.eval(ty, v)) {
+                (Some(false), _) | (_, Some(false)) => Some(false),
+                (Some(true), Some(true)) => Some(true),
+                _ => None,
+            },
+            CheckSpec::Or(a, b) => match (a.eval(ty, v), b.eval(ty, v)) {
+                (Some(true), _) | (_, Some(true)) => Some(true),
+                (Some(false), Some(false)) => Some(false),
+                _ => None,
+            },
+        }
+    }
+    pub fn has_eq_ne(&self) -> bool {
+        match self {
+            CheckSpec::Cmp(op, _) => matches!(op, CmpOp::Eq | CmpOp::Ne),
+            CheckSpec::And(a, b) | CheckSpec::Or(a, b) => a.has_eq_ne() || b.has_eq_ne(),
+        }
+    }
+    pub fn has_or(&self) -> bool {
+        match self {
+            CheckSpec::Cmp(..) => false,
+            CheckSpec::Or(..) => true,
+            CheckSpec::And(a, b) => a.has_or() || b.has_or(),
+        }
+    }
 }
 
 #[derive(Debug, Clone, PartialEq, Serialize, Deserialize)]
@@ -271,6 +348,8 @@ pub struct Profile {
     pub allow_null_lit: bool,
     pub big_keys: bool,
     pub max_insert_rows: usize,
+    pub allow_check: bool,
+    pub allow_fk: bool,
 }
 
 impl Default for Profile {
@@ -298,6 +377,8 @@ impl Default for Profile {
             allow_null_lit: true,
             big_keys: false,
             max_insert_rows: 4,
+            allow_check: false,
+            allow_fk: false,
         }
     }
 }
@@ -319,8 +400,8 @@ pub fn table_strategy(p: &Profile, name: String) -> BoxedStrategy<TableSpec> {
         .prop_map(move |(pk_kind, cols, idxs, auto)| {
             let mut out = Vec::new();
             match pk_kind {
-                1 => out.push(ColSpec { name: "id".into(), ty: Ty::Int, pk: true, unique: false, not_null: false, auto_inc: p.allow_auto_inc && auto, default: None }),
-                2 => out.push(ColSpec { name: "id".into(), ty: Ty::Text, pk: true, unique: false, not_null: false, auto_inc: false, default: None }),
+                1 => out.push(ColSpec { name: "id".into(), ty: Ty::Int, pk: true, unique: false, not_null: false, auto_inc: p.allow_auto_inc && auto, default: None, check: None, fk: None }),
+                2 => out.push(ColSpec { name: "id".into(), ty: Ty::Text, pk: true, unique: false, not_null: false, auto_inc: false, default: None, check: None, fk: None }),
                 _ => {}
             }
             for (i, (ty, f1, f2, d)) in cols.into_iter().enumerate() {
@@ -332,6 +413,16 @@ pub fn table_strategy(p: &Profile, name: String) -> BoxedStrategy<TableSpec> {
                     not_null: p.allow_not_null && f2 % 5 == 0,
                     auto_inc: false,
                     default: if p.allow_default && f2 % 3 == 0 { Some(d % 10) } else { None },
+                    check: if p.allow_check && matches!(ty, Ty::Int | Ty::BigInt | Ty::Double | Ty::Text) && f1 % 3 == 1 { Some(check_from_bits(f2, d)) } else { None },
+                    fk: if p.allow_fk && ty == Ty::Int && f1 % 4 == 2 {
+                        Some(match d % 3 {
+                            0 => FkAction::NoAction,
+                            1 => FkAction::Restrict,
+                            _ => FkAction::Cascade,
+                        })
+                    } else {
+                        None
+                    },
                 });
             }
             let ncols = out.len();
@@ -442,4 +533,25 @@ pub fn history_strategy(p: &Profile) -> BoxedStrategy<History> {
         v
     });
     (tables, proptest::collection::vec(op_strategy(p), 1..=p.max_ops)).prop_map(|(tables, ops)| History { tables, ops }).boxed()
+}
+
+fn cmp_from(b: u8) -> CmpOp {
+    match b % 6 {
+        0 => CmpOp::Lt,
+        1 => CmpOp::Le,
+        2 => CmpOp::Gt,
+        3 => CmpOp::Ge,
+        4 => CmpOp::Eq,
+        _ => CmpOp::Ne,
+    }
+}
+
+/// derive a CHECK expression from two generated bytes (keeps `table_strategy` flat)
+fn check_from_bits(a: u8, b: u8) -> CheckSpec {
+    let c1 = CheckSpec::Cmp(cmp_from(a), b % 10);
+    match a / 64 {
+        0 | 1 => c1,
+        2 => CheckSpec::And(Box::new(CheckSpec::Cmp(cmp_from(a / 6), (b / 2) % 10)), Box::new(c1)),
+        _ => CheckSpec::Or(Box::new(CheckSpec::Cmp(cmp_from(a / 6), (b / 3) % 10)), Box::new(c1)),
+    }
 }
